@@ -19,6 +19,9 @@ def run(tier, argv):
         raw2 = work.path("gen2.txt")
         r2 = vlib.tlc(work, "GenGraph", "GenGraph.cfg", consts={"NTypes": "2", "Level": "2"}, to_file=raw2, timeout=6000, heap="16g")
         rep.add_tlc(r2, "GenGraph 2 types, extended edge forms")
+    raw4 = work.path("gen4.txt")
+    r4 = vlib.tlc(work, "GenGraph", "GenGraph.cfg", consts={"NTypes": "2" if quick else "3", "Level": "4"}, to_file=raw4, timeout=6000, heap="16g")
+    rep.add_tlc(r4, "GenGraph key-shortcut family (used names, termination)")
     if not quick:
         raw3 = work.path("gen3.txt")
         r3 = vlib.tlc(work, "GenGraph", "GenGraph.cfg", consts={"NTypes": "4", "Level": "3"}, to_file=raw3, timeout=6000, heap="16g")
@@ -27,7 +30,7 @@ def run(tier, argv):
     n = 0
     wants = {}
     with open(cases, "w") as f:
-        for src in [raw, work.path("gen2.txt")] + ([work.path("gen3.txt")] if not quick else []):
+        for src in [raw, work.path("gen2.txt"), work.path("gen4.txt")] + ([work.path("gen3.txt")] if not quick else []):
             for l in vlib.tagged_file(src, "@@CASE"):
                 f.write(l + "\n")
                 n += 1
@@ -57,6 +60,9 @@ def run(tier, argv):
         if p.returncode != 3:
             crashes.append({"run": last, "stderr": p.stderr.decode("utf-8", "replace")[:600]})
         skip = last
+        if len(crashes) >= 25:
+            rep.notes["truncated"] = "stopped after 25 crashes of the library at run %d" % last
+            break
     bad = []
     results = 0
     for l in open(res):
